@@ -467,6 +467,8 @@ def judge(prop, events, findings, hooks=None):
     reject_ok = getattr(hooks, 'reject_ok', None) or (lambda e: False)
     for e in events:
         st = e.get('st')
+        if st == 'na':
+            continue
         if st in ('skipped-isa', 'noevent', 'hang'):
             res.inconclusive.append((e['k'], e['cfg'], st))
             continue
